@@ -84,10 +84,11 @@ Inductive revr :=
 | RevOK | RevFail | RevErr
 | RevBadShape       (* not one non-nil result per certificate (nil entry, more or fewer results, (nil, nil)):
                        breaks the Validator contract; since fix d78db00 an ordinary failure *)
-| RevNilServer.     (* one non-nil result per certificate, but a nil entry among the ServerResults of one of
-                       them: checkRevocationResults does not look at them, revocationFinalResult dereferences
-                       every entry (serverResult.Error, verifier/verifier.go:887). Found by the GoLite
-                       translation (props/C12_Generated.v, C12_gen_revocation_nil_server_panics) *)
+| RevNilServer.     (* one OK result per certificate, with a nil entry among the ServerResults of one of them:
+                       checkRevocationResults does not look at them; revocationFinalResult dereferenced every
+                       entry in its logging loop (serverResult.Error). Since fix a146158 a nil entry is skipped
+                       and the verdict is the results' own. Found by the GoLite translation
+                       (props/C12_Generated.v) *)
 Inductive presp :=
 | PRErr
 | PRNil                                     (* (nil, nil): breaks the plugin.VerifyPlugin contract; since fix
@@ -207,17 +208,18 @@ Inductive nat_res := NPanic | NStop (e : errc) (rs : list (vtype * bool)) | NGo 
    [fixed] = with checkRevocationResults (fix d78db00): an answer that is not one non-nil result
    per certificate is an ordinary failure ("unable to check revocation status"); before the fix
    revocationFinalResult dereferenced a nil entry / indexed certChain out of range.
-   A nil server result inside a result panics before and after the fix. *)
-Definition rev_failed (fixed : bool) (r : revr) : option bool :=
+   [fixed_srv] = with the nil test on a server result (fix a146158) *)
+Definition rev_failed_gen (fixed fixed_srv : bool) (r : revr) : option bool :=
   match r with
   | RevOK => Some false
   | RevBadShape => if fixed then Some true else None
-  | RevNilServer => None
+  | RevNilServer => if fixed_srv then Some false else None
   | _ => Some true
   end.
+Definition rev_failed (fixed : bool) : revr -> option bool := rev_failed_gen fixed true.
 
 (* authenticity .. revocation; [caps] = verification capabilities of the plugin *)
-Definition native_gen (fixed : bool) (l : level) (sc : scenario) (caps : list cap) : nat_res :=
+Definition native_gen2 (fixed fixed_srv : bool) (l : level) (sc : scenario) (caps : list cap) : nat_res :=
   let rI := (TInt, false) in
   let f0 := s_auth_fail sc in
   if crit (act l TAuth) f0 then NStop (XResult TAuth) [rI; (TAuth, f0)] else
@@ -230,7 +232,7 @@ Definition native_gen (fixed : bool) (l : level) (sc : scenario) (caps : list ca
   let rs3 := rs2 ++ [(TTs, s_ts_fail sc)] in
   if crit (act l TTs) (s_ts_fail sc) then NStop (XResult TTs) rs3 else
   if negb (action_eqb (act l TRev) Skip) && negb (has_cap CapRev caps) then
-    match rev_failed fixed (s_rev sc) with
+    match rev_failed_gen fixed fixed_srv (s_rev sc) with
     | None => NPanic
     | Some f =>
         let rs4 := rs3 ++ [(TRev, f)] in
@@ -238,9 +240,12 @@ Definition native_gen (fixed : bool) (l : level) (sc : scenario) (caps : list ca
     end
   else NGo rs3.
 
+Definition native_gen (fixed : bool) := native_gen2 fixed true.
 Definition native := native_gen true.
 (* before fix d78db00 *)
 Definition native_v0 := native_gen false.
+(* before fix a146158 *)
+Definition native_v1 := native_gen2 true false.
 
 Fixpoint set_auth_failed (rs : list (vtype * bool)) : list (vtype * bool) :=
   match rs with
@@ -610,17 +615,10 @@ Definition impl_wf (impl : vimpl) : bool :=
 (* the documents are as the constructor validated them *)
 Definition sel_wf (d : option sel) : bool := match d with Some SelBadLevel => false | _ => true end.
 
-(* the revocation validator: no nil entry among the server results of a result it returns (the shape of
-   the result vector itself is no longer a contract since fix d78db00) *)
-Definition rev_wf (r : revr) : bool := match r with RevNilServer => false | _ => true end.
-Definition sc_wf (sc : scenario) : bool := rev_wf (s_rev sc).
-Definition item_wf (it : item) : bool := match it with Sig sc => sc_wf sc | FetchErr => true end.
-
-(* since fix 686cc56 there is no contract on the verification plugin, and since fix d78db00 none on the
-   shape of the revocation result vector: whatever they answer, the entry points return normally *)
+(* since the fixes d78db00, a146158 and 686cc56 there is no contract on the revocation validator or on
+   the verification plugin: whatever they answer, the entry points return normally *)
 Definition wf (i : input) : bool :=
-  sel_wf (v_oci (i_v i)) && sel_wf (v_blob (i_v i)) && impl_wf (i_impl i)
-  && sc_wf (i_sc i) && forallb item_wf (n_items (i_n i)).
+  sel_wf (v_oci (i_v i)) && sel_wf (v_blob (i_v i)) && impl_wf (i_impl i).
 
 (* ---------- boolean equalities ---------- *)
 Definition errc_eqb (a b : errc) : bool :=
